@@ -88,6 +88,59 @@ def main():
         with open(os.path.join(out_dir, "check-%s.json" % name), "w") as f:
             json.dump(common.enc(c), f, indent=1, sort_keys=True)
     print("wrote", len(W) + len(FUZZ), "witnesses")
+    write_coq()
+
+
+EXTRA_COQ = {
+    # further faulty programs used by the _refuted / example theorems (not corpus witnesses)
+    "mutual_recursion": prog([("call", "ta", [], [])],
+                             [{"name": "ta", "ins": [], "body": [svc(name="Sn"), ("call", "tb", [], [])], "outs": []},
+                              {"name": "tb", "ins": [], "body": [("call", "ta", [], [])], "outs": []}]),
+    "recursion_through_parallel": prog([("call", "ta", [], [])],
+                                       [{"name": "ta", "ins": [], "body": [svc(name="Sn"), ("parallel", [("ta", [], []), ("tb", [], [])])], "outs": []},
+                                        {"name": "tb", "ins": [], "body": [svc(name="So")], "outs": []}]),
+    "recursion_through_parloop": prog([("call", "ta", [], [])],
+                                      [{"name": "ta", "ins": [], "body": [svc(name="Sn"), ("count", True, "z", ("int", 2), [("call", "ta", [], [])])], "outs": []}]),
+    "parloop_wrong_arity": prog([Q, ("count", True, "k", ("int", 2), [("call", "fcallee", [("var", "q")], [("x1", FIN)])])], [CALLEE]),
+    "limit_unknown_attribute": prog([Q, ("count", False, "k", ("path", "q", [("f", "nosuch")]), [svc()])]),
+    "limit_string": prog([Q, ("count", False, "k", ("path", "q", [("f", "label")]), [svc()])]),
+    "unknown_attribute_operand": prog([Q, cond(cmp_("<", P("q", "nosuch"), n(3)))]),
+    "field_after_array": prog([Q, svc([P("q", "items", "n")])]),
+    "array_variable_path": prog([svc(outs=[("a", ("array", "Fin", None))]), svc([P("a", "n")])]),
+    "array_element_as_condition": prog([Q, cond(P("q", "items", 1, "ok"))]),
+    "not_number": prog([Q, cond(("not", P("q", "count")))]),
+    "bool_literal_in_arithmetic": prog([Q, cond(cmp_("<", cmp_("+", ("bool", True), n(1)), n(3)))]),
+    "number_as_condition": prog([Q, ("while", n(3), [svc()])]),
+    "unknown_task": prog([Q, ("cond", ("bool", True), [("count", False, "k", ("int", 2), [svc(), ("call", "nosuch", [], [])])], [])]),
+    "good_small": prog([Q, ("call",) + GOOD_CALL,
+                        ("count", False, "k", ("path", "q", [("f", "count")]),
+                         [("call", "fcallee", [("var", "q"), P("q", "inner", "n")], [("x2", FIN)]),
+                          svc([P("q", "fixed", "@k"), P("q", "items", "@k", "ok")])]),
+                        cond(cmp_("And", cmp_("<", cmp_("+", P("q", "count"), n(1)), n(3)), ("not", P("q", "flag")))),
+                        svc([("lit", "Fq", fq_json()), P("q", "items", 0), P("q", "inner")]),
+                        ("parallel", [GOOD_CALL, ("fcallee", [("var", "q"), P("q", "count")], [("x3", FIN)])]),
+                        ("count", True, "z", ("int", 2), [("call",) + GOOD_CALL])], [CALLEE]),
+}
+
+
+def write_coq():
+    import pfdl_ast
+    I = pfdl_ast.Interner()
+    out = ["(* Witnesses.v — GENERATED by tools/mk_check_witnesses.py from the corpus witnesses of the",
+           "   validator findings (corpus/check-*.json) and a few further hand-written programs; the",
+           "   programs are the arguments of the _refuted theorems and of the guard-inhabitation",
+           "   examples.  Definitions only.  Names are interned by the harness (productionTask = 0). *)",
+           "From PFDL Require Import Base Syntax.", ""]
+    for name, (fid, props, mons, p, span) in W.items():
+        out.append("Definition w_%s : program :=\n  %s.\n" % (name.replace("-", "_"), pfdl_ast.coq_program(I, p)))
+    for name, p in EXTRA_COQ.items():
+        out.append("Definition w_%s : program :=\n  %s.\n" % (name, pfdl_ast.coq_program(I, p)))
+    out.append("(* interned names: " + ", ".join("%d=%s" % (i, s.replace("*)", "* )")) for i, s in enumerate(I.rev)) + " *)")
+    path = os.path.join(os.path.dirname(HERE), "coq", "Check", "Witnesses.v")
+    text = "\n".join(out) + "\n"
+    if not os.path.exists(path) or open(path).read() != text:
+        open(path, "w").write(text)
+    print("wrote", path)
 
 
 if __name__ == "__main__":
